@@ -139,6 +139,7 @@ structure St where
   implErr : Bool := false
   bad : Option String := none
   tokOnly : Bool := false
+  caseIdx : Nat := 0
   wants : List (Str × Bool × Str × String) := []   -- key, nested?, original text, yaml kind
   implTyped : List (Str × List String) := []
   wantc : List (Str × String × String) := []   -- key, expected container (encoded), yaml kind
@@ -274,8 +275,32 @@ def checkLeaks (s : St) : Option String :=
         | none => none)
   | none => none
 
+partial def uniqueKeys : Val → Bool
+  | .map m =>
+    let ks := m.toList.map (·.1)
+    ks.eraseDups.length == ks.length && m.toList.all (fun kv => uniqueKeys kv.2)
+  | _ => true
+
+/-- `C12_resolve_lookup` evaluated on the implementation's result (every 5th case): under every leaf path of the merged
+sources the implementation holds `resolveValue` of the merged value -/
+def checkLeafPaths (s : St) (res : KVs) : Option String :=
+  if s.caseIdx % 5 != 0 then none else
+  match s.srcs.reverse.mapM asConf with
+  | none => none
+  | some ms =>
+    if !ms.all (fun m => uniqueKeys (.map m)) then none else
+    let env := s.env
+    (flatten [] (mergeSources ms)).findSome? (fun (p, v) =>
+      match resolveValue env v with
+      | .error _ => none
+      | .ok v' =>
+        let got := match lookupPath p res with | some x => showVal x | none => "none"
+        if got == showVal v' then none else
+          some s!"sig=C12/resolve/leaf-path-value-mismatch path={" ".intercalate (p.map hexStr)} want={showVal v'} got={got}")
+
 def handler : Handler St where
   init := {}
+  onCase := fun s toks => { s with caseIdx := (toks.head?.bind String.toNat?).getD 0 }
   onOp := fun s toks =>
     match toks with
     | "env" :: rest =>
@@ -367,6 +392,9 @@ def handler : Handler St where
         ++ (match checkWants s with
             | some d => [s!"prop typed=FAIL {d}"]
             | none => ["prop typed=ok"])
+        ++ (match checkLeafPaths s res with
+            | some d => [s!"prop leafpaths=FAIL {d}"]
+            | none => ["prop leafpaths=ok"])
         ++ (match checkContainers s with
             | some d => [s!"prop containers=FAIL {d}"]
             | none => ["prop containers=ok"])
